@@ -151,8 +151,9 @@ def observations(hist, root, toks, d, singletons):
                 n = rep_seen.get((id(blk), "points"), 0)
                 rep_seen[(id(blk), "points")] = n + 1
                 pd = pd[n] if n < len(pd) else None
-            if pd is None:
-                missing = missing or "points"
+            if pd is None or not hasattr(pd, "get") or "line" not in pd:
+                # one {line, column} record per POINTS keyword, in source order
+                missing = missing or "points-records"
                 continue
             obs.append({"what": "keyword", "name": "points", "tok": tis[0] + 1, "line": pd["line"], "col": pd["column"], "vals": []})
         elif k == "config":
@@ -168,7 +169,17 @@ def run(tier):
     quick = tier == "quick"
     v = vocab.get()
     singletons = set(v["tokens"]["singleton_composite_names"])
-    loads = impl.loader(include_position=True, expand_includes=False)
+    # the default front end (expand_includes=True) for include-free text; documents that carry INCLUDE keywords
+    # as data are loaded with expansion off
+    loads_noexp = impl.loader(include_position=True, expand_includes=False)
+    loads_exp = impl.loader(include_position=True, expand_includes=True)
+
+    def loads(text, hist=None):
+        if hist is not None and any(a["a"] == "repeated" and a["key"] == "include" for a in hist):
+            return loads_noexp(text)
+        if any(ln.strip().lower().startswith("include") for ln in text.split("\n")):
+            return loads_noexp(text)
+        return loads_exp(text)
     cfg = tlc.cfg_text(init="SInit", next_="SNext",
                        constants={"MaxDepth": 5, "MaxSteps": 16 if quick else 40, "Ids": {1, 2, 3, 4}, "StepPosts": False,
                                   "Mode": "dupattr", "MaxPos": 12, "VecLen": 24, "MaxDevs": 1}, invariants=["SEmit"])
@@ -190,7 +201,7 @@ def run(tier):
         text = surface.text_of(texts, seps)
         ck.count()
         try:
-            d = loads(text)
+            d = loads(text, h)
         except Exception:  # noqa: BLE001
             continue            # C05 / C02
         if isinstance(d, list):
